@@ -341,13 +341,60 @@ def sec_point_use(rep):
     c01.sec_compute_local(rep)
 
 
+def sec_real_runs(rep, tier):
+    """BOUNDED companions on real runs (real Runner, numpy masses, real LeProHQ, the assembled operator):
+    rows of the non-heavy partons of F*_charm / F*_bottom are exactly zero at and below the thresholds
+    and not all zero above them."""
+    import numpy as np
+
+    thorough = tier == "thorough"
+    mc, mb = H.base_theory()["mc"], H.base_theory()["mb"]
+    for hq, m, ihq in (("charm", mc, 4),) + ((("bottom", mb, 5),) if thorough else ()):
+        m2 = float(np.power(m, 2))
+        # NC: hadronic pair threshold Q2 (1-x)/x = 4 m2
+        x0 = 0.3
+        q_at = 4 * m2 * x0 / (1 - x0)
+        pts = {"below": {"x": x0, "Q2": 0.6 * q_at}, "just below": {"x": x0, "Q2": q_at * (1 - 1e-12)}, "above": {"x": x0, "Q2": 3.0 * q_at}}
+        for pto in (1, 2) if thorough else (1,):
+            for kind in ("F2", "FL") + (("g1",) if thorough else ()):
+                name = f"{kind}_{hq}"
+                rep.cases += 1
+                try:
+                    ops, pids = H.real_ops(dict(FNS="FFNS", NfFF=ihq - 1, PTO=pto, PTODIS=pto), dict(prDIS="NC"), [name], list(pts.values()))
+                    rows = [i for i, p in enumerate(pids) if abs(p) != ihq]
+                    mx = {lab: max((float(np.max(np.abs(v[rows]))) for v, _ in ops[name][i].values()), default=0.0) for i, lab in enumerate(pts)}
+                    ok = mx["below"] == 0.0 and mx["just below"] == 0.0 and mx["above"] > 0.0
+                    detail = f"max |row of a non-{hq} parton| below / just below / above the pair threshold: {mx}"
+                except Exception as e:  # noqa
+                    ok, detail = False, f"{type(e).__name__}: {e}"
+                o = ob_eval(f"C09/bounded/real run/FFNS NC {name} pto={pto}: non-{hq} rows vanish at and below Q2(1-x)/x = 4m2 and not above", ok, kind="bounded", detail=detail, inputs={} if ok else {"observable": name, "points": str(pts), "observed": detail}, replay={"confirmed": True, "python": "contracts.harness.real_ops(FFNS, NC, ...)"})
+                o.bounded = True
+                rep.add(o)
+        # CC: slow rescaling chi = x (1 + m2/Q2)
+        ptc = {"chi>1": {"x": 0.8, "Q2": 2.0 * m2}, "chi=1+": {"x": 0.5, "Q2": m2 * (1 - 1e-9)}, "chi<1": {"x": 0.3, "Q2": 4.0 * m2}}
+        for kind in ("F2", "F3") + (("FL",) if thorough else ()):
+            name = f"{kind}_{hq}"
+            rep.cases += 1
+            try:
+                ops, pids = H.real_ops(dict(FNS="FFNS", NfFF=ihq - 1, PTO=1, PTODIS=1), dict(prDIS="CC", ProjectileDIS="neutrino"), [name], list(ptc.values()))
+                rows = [i for i, p in enumerate(pids) if abs(p) != ihq]
+                mx = {lab: max((float(np.max(np.abs(v[rows]))) for v, _ in ops[name][i].values()), default=0.0) for i, lab in enumerate(ptc)}
+                ok = mx["chi>1"] == 0.0 and mx["chi=1+"] == 0.0 and mx["chi<1"] > 0.0
+                detail = f"max |row of a non-{hq} parton| for chi > 1 / chi just above 1 / chi < 1: {mx}"
+            except Exception as e:  # noqa
+                ok, detail = False, f"{type(e).__name__}: {e}"
+            o = ob_eval(f"C09/bounded/real run/FFNS CC {name} NLO: non-{hq} rows vanish for x(1+m2/Q2) > 1 and not below", ok, kind="bounded", detail=detail, inputs={} if ok else {"observable": name, "points": str(ptc), "observed": detail}, replay={"confirmed": True, "python": "contracts.harness.real_ops(FFNS, CC, ...)"})
+            o.bounded = True
+            rep.add(o)
+
+
 def run(rep, tier, seed, only=None):
     rep.assume(
         "A-ext: LeProHQ and the N3LO splines are uninterpreted (contract stubs that record being reached)",
         "conv.convolution is exercised with an eko basis-function stub (A-eko) and scipy.integrate.quad must not be reached on the zero paths",
     )
     rep.stub("LeProHQ.* -> uninterpreted recording stub", "heavy.n3lo.interpolator -> uninterpreted recording stub", "scipy.integrate.quad -> must-not-be-called stub", "eko BasisFunction -> BasisStub")
-    for nm, f in (("predicate", sec_threshold_predicate), ("decorator", sec_decorator), ("closures", sec_closures), ("cc", sec_cc), ("masses", sec_generator_masses), ("ccarg", sec_cc_argument_only), ("point_use", sec_point_use)):
+    for nm, f in (("predicate", sec_threshold_predicate), ("decorator", sec_decorator), ("closures", sec_closures), ("cc", sec_cc), ("masses", sec_generator_masses), ("ccarg", sec_cc_argument_only), ("point_use", sec_point_use), ("realruns", lambda r: sec_real_runs(r, tier))):
         if only and only not in nm:
             continue
         rep.add(guarded(f"C09/{nm}", lambda f=f: (f(rep), [])[1]))
